@@ -10,9 +10,11 @@ Ops (tokens separated by one space; strings are `CV.encS` tokens; `-` is an empt
   csn   <peer> <service>
   dump
   exp   <peer> <cfg> <typical> <chains> <connect>       cfg = name;peer+peer+…,…
+  xreset | xlist <names> | xdata <service> <payload-number>    the exporter's duplicate suppression (CV.PeerExport)
 chk = node~cid~sid~sname~status
 -/
 import CV.Peer
+import CV.PeerExport
 namespace CV.Engine.C17
 open CV CV.Peer
 
@@ -99,6 +101,23 @@ def tokNormal (tok : String) : Bool :=
       | none => true
     else true
 
+def stepX (x : PeerX.St) (toks : List String) : Option (PeerX.St × String) :=
+  match toks with
+  | ["xreset"] => some ({}, "ok")
+  | ["xlist", names] =>
+    match (decOpt "," names).mapM decS with
+    | some ns =>
+      let (x', sent) := PeerX.step .always x (.list ns)
+      some (x', s!"{if sent then "sent" else "dup"} watched={encList (sortStrs (x'.watched.map encS))}")
+    | none => none
+  | ["xdata", n, h] =>
+    match decS n, h.toNat? with
+    | some n, some h =>
+      let (x', sent) := PeerX.step .always x (.data n h)
+      some (x', if sent then "sent" else "dup")
+    | _, _ => none
+  | _ => none
+
 def stepN (c : Cat) (toks : List String) : Cat × String :=
   match toks with
   | ["reset"] => ({}, "ok")
@@ -147,9 +166,15 @@ def stepN (c : Cat) (toks : List String) : Cat × String :=
     | _, _, _, _, _ => (c, "bad-op")
   | _ => (c, "bad-op")
 
-def step (c : Cat) (toks : List String) : Cat × String :=
-  if toks.all tokNormal then stepN c toks else (c, "non-normal-name")
+def step (st : Cat × PeerX.St) (toks : List String) : (Cat × PeerX.St) × String :=
+  if !toks.all tokNormal then (st, "non-normal-name")
+  else match stepX st.2 toks with
+    | some (x', out) => ((st.1, x'), out)
+    | none =>
+      match toks with
+      | "xreset" :: _ | "xlist" :: _ | "xdata" :: _ => (st, "bad-op")
+      | _ => let (c', out) := stepN st.1 toks; ((c', st.2), out)
 
-def engine : Engine := { State := Cat, init := {}, step := step }
+def engine : Engine := { State := Cat × PeerX.St, init := ({}, {}), step := step }
 
 end CV.Engine.C17
